@@ -1109,7 +1109,7 @@ def gen_cfg(rng, alpha_kinds=('fixed',), universe_kinds=('static',), max_days=25
                 dd = [x for x in market.bdays(d0, d1)][-1]           # enters on the last simulated day
                 dates[a] = '%s %s+00:00' % (dd.isoformat(), rng.choice(['14:30:00', '21:00:00', '09:00:00']))
             elif r < 0.85:
-                dd = d0 + dt.timedelta(days=rng.randint(1, max(2, (d1 - d0).days)))
+                dd = d0 + dt.timedelta(days=rng.choice([0, 0, rng.randint(1, max(2, (d1 - d0).days)), rng.randint(1, max(2, (d1 - d0).days))]))   # also later on the start's own day
                 dates[a] = '%s %s+00:00' % (dd.isoformat(), rng.choice(['00:00:00', '14:30:00', '21:00:00', '12:00:00']))
             elif r < 0.93:
                 dates[a] = '%s 00:00:00+00:00' % (d1 + dt.timedelta(days=10)).isoformat()
@@ -1142,7 +1142,7 @@ def gen_cfg(rng, alpha_kinds=('fixed',), universe_kinds=('static',), max_days=25
                 w[a] = -w[a]
         if not w:
             w[assets[0]] = 1.0
-        if rng.random() < 0.15 and any(x != 0 for x in w.values()):
+        if rng.random() < 0.25 and any(x != 0 for x in w.values()):
             # almost-normalised weights (truncated decimals) on a large account
             target = 1.0 if cfg['long_only'] else cfg['leverage']
             g = sum(abs(x) for x in w.values())
